@@ -19,3 +19,7 @@ open Femio.C03
 #print axioms C03_history_fresh
 #print axioms C03_history_poke_state
 #print axioms C03_history_counterexample_frame_writer
+#print axioms C03_ngroup_layout
+#print axioms C03_ngroup_layout_independent
+#print axioms C03_ngroup_first_id_counterexample
+#print axioms C03_ngroup_ragged_counterexample_upstream
